@@ -113,7 +113,7 @@ func init() {
 	})
 	NewSpace(p, "exec", c08Check)
 	p.Run = func(r *rep.Run, thorough bool) {
-		n, err := scriptref.Anchor("/repo/bscript/interpreter/data/script_tests.json")
+		n, err := scriptref.Anchor(vectorsDir() + "/script_tests.json")
 		if err != nil {
 			r.HarnessError("script reference failed its anchor: " + err.Error())
 			return
